@@ -81,6 +81,34 @@ type gateResult struct {
 type diag struct {
 	Msg  string `json:"msg"`
 	Line string `json:"line"`
+	Encl string `json:"enclosing_declaration"` // name of the top-level type or function the diagnostic lies in
+}
+
+// enclosingDecl names the top-level declaration that contains pos.
+func enclosingDecl(f *ast.File, pos token.Pos) string {
+	for _, d := range f.Decls {
+		if pos < d.Pos() || pos > d.End() {
+			continue
+		}
+		switch x := d.(type) {
+		case *ast.FuncDecl:
+			return x.Name.Name
+		case *ast.GenDecl:
+			for _, sp := range x.Specs {
+				if pos >= sp.Pos() && pos <= sp.End() {
+					switch y := sp.(type) {
+					case *ast.TypeSpec:
+						return y.Name.Name
+					case *ast.ValueSpec:
+						if len(y.Names) > 0 {
+							return y.Names[0].Name
+						}
+					}
+				}
+			}
+		}
+	}
+	return ""
 }
 
 var posRE = regexp.MustCompile(`^[^ ]*:\d+:\d+: `)
@@ -148,6 +176,7 @@ func (c *c01Checker) gate(spec *openapi3.T, cfg codegen.Configuration, pkgPath s
 			if line >= 1 && line <= len(lines) {
 				d.Line = strings.TrimSpace(lines[line-1])
 			}
+			d.Encl = enclosingDecl(f, te.Pos)
 			if len(res.Diags) == 0 {
 				lo, hi := line-4, line+2
 				if lo < 0 {
@@ -669,6 +698,11 @@ func re(s string) *regexp.Regexp { return regexp.MustCompile(strings.ReplaceAll(
 // Go name of the field that uses it, or with _Item / _AdditionalProperties
 func hoistedAuxType(m []string, d diag) bool {
 	name := m[1]
+	// only inside response types (client <Op>Response structs, strict <Op><Status><Tag>Response types): the
+	// auxiliary types of parameters, bodies and component schemas are emitted, so a missing one there is new
+	if !strings.HasSuffix(d.Encl, "Response") && !strings.HasSuffix(d.Encl, "Resp") {
+		return false
+	}
 	f := strings.Fields(d.Line)
 	if len(f) < 2 {
 		return false
